@@ -38,3 +38,14 @@ extern "C" int h_load() {
   __vp_reached("end");
   return 0;
 }
+
+// C03: load "in.c3d", dump it, save it unchanged and hand the saved bytes to the reference decoder (no reload: whether the
+// library itself can read the file back is C04's question, not C03's)
+extern "C" int h_resave() {
+  ezc3d::c3d d("in.c3d");
+  dump_all(d, "gen1", true);
+  d.write("gen2.c3d");
+  __vp_tag("files1"); __vp_obs_file("gen2.c3d");
+  __vp_reached("end");
+  return 0;
+}
